@@ -281,6 +281,9 @@ func (w *world) allPositionIds() []uint64 {
 	return ids
 }
 
+// selLast as a selector picks the open position with the largest id
+const selLast = 999983
+
 func (w *world) selectPos(a int, sel int, own bool, lit uint64) uint64 {
 	if lit > 0 {
 		return lit
@@ -289,6 +292,9 @@ func (w *world) selectPos(a int, sel int, own bool, lit uint64) uint64 {
 	ids := w.allPositionIds()
 	if len(ids) == 0 {
 		return k.GetNextPositionId(w.h.Ctx) + 3
+	}
+	if sel == selLast { // the most recently created position that is still open
+		return ids[len(ids)-1]
 	}
 	cand := ids
 	if own {
